@@ -49,6 +49,26 @@ def zero(self):
           '(* PerDomainMetric.zero: broadcast of the base zero() (checked) *)')
 
 
+def emit_per_domain(tree):
+  """PerDomainMetric.evaluate_example: the base statistic is expanded by a leading axis and selected against the
+  base zero() by the one-hot (boolean) mask of the example's domain id: domain d holds the base statistic when
+  d == domain id and the base zero otherwise."""
+  h = match_def(find_def(tree, 'PerDomainMetric.evaluate_example'), '''
+def evaluate_example(self, H_example, H_prediction):
+  H_mask = jax.nn.one_hot(H_example[self.domain_id_key], self.num_domains, dtype=jnp.bool_)
+  def where(H_a, H_b):
+    return apply_mask(H_mask, jnp.expand_dims(H_a, 0), jnp.expand_dims(H_b, 0))
+  return jax.tree_util.tree_map(where, self.base.evaluate_example(H_example, H_prediction), self.base.zero())
+''', 'PerDomainMetric.evaluate_example')
+  mk = h['mask']
+  return ('(* jax.nn.one_hot(i, n, dtype=bool) *)\n'
+          'Definition one_hot_bool (i n : nat) : list bool := map (fun d => Nat.eqb d i) (seq 0 n).\n'
+          '(* expand_dims(a, 0) broadcast along the mask = num_domains copies of a *)\n'
+          f'Definition per_domain_example {{B : Type}} (num_domains domain_id : nat) (base_stat base_zero : B) : list B :=\n'
+          f'  let {mk} := one_hot_bool domain_id num_domains in\n'
+          f'  (fun {h["a"]} {h["b"]} => apply_mask {mk} (repeat {h["a"]} num_domains) {h["b"]}) base_stat base_zero.')
+
+
 def emit_apply_mask(tree):
   """apply_mask(mask, a, b): jnp.where with the mask expanded to the rank of the operands, i.e. a
   selection on the LEADING dimension: row i of the result is row i of `a` where mask[i], else `b`
@@ -112,6 +132,7 @@ MODULES = {
             *[A_qfun(f'{c}.zero', f'zero_{c}', ['self'], [], 'Q', calls=CALLS) for c in SUM_CLASSES],
             emit_higher_rank_zeros,
             emit_apply_mask,
+            emit_per_domain,
             lambda tree: ('Section batch_eval.\nContext {A : Type} (metric_zero : list A) '
                           '(stat_reduce : list (list A) -> list A).'),
             emit_evaluate_batch,
